@@ -431,7 +431,7 @@ pub fn stream_latch_data_error_7() {
     latch_after_data_error::<7>()
 }
 
-//@ harness props=C15,C10,C05 tier=thorough optional=yes unwind=10 unwindset=default_read_exact:4,process_mode:7,mk_stream_bytes:42,write_piece:4,extend_with:3,CountSink.*4take:6,finish_incomplete:4 mem_gb=8 timeout=900 native=no
+//@ harness props=C15,C10,C05 tier=thorough optional=yes unwind=10 unwindset=default_read_exact:4,process_mode:7,mk_stream_bytes:42,write_piece:4,extend_with:3,CountSink.*4take:6,finish_incomplete:4 mem_gb=8 timeout=900 native=no opt_covers=incomplete_err
 //@ bound: Stream(allow_incomplete=true, memlimit symbolic): one write of 21 bytes (13 header + 5 preamble + abstract symbols 2/3/1), then finish
 #[cfg_attr(kani, kani::proof)]
 #[cfg_attr(kani, kani::stub(std::fmt::format, crate::verif_common::stub_format))]
@@ -443,7 +443,7 @@ pub fn stream_finish_incomplete_allow_21() {
     finish_incomplete::<true, 21>()
 }
 
-//@ harness props=C15,C10,C05 tier=thorough optional=yes unwind=10 unwindset=default_read_exact:4,process_mode:7,mk_stream_bytes:42,write_piece:4,extend_with:3,CountSink.*4take:6,finish_incomplete:4 mem_gb=8 timeout=900 native=no
+//@ harness props=C15,C10,C05 tier=thorough optional=yes unwind=10 unwindset=default_read_exact:4,process_mode:7,mk_stream_bytes:42,write_piece:4,extend_with:3,CountSink.*4take:6,finish_incomplete:4 mem_gb=8 timeout=900 native=no opt_covers=incomplete_ok
 //@ bound: Stream(allow_incomplete=false, memlimit symbolic): one write of 21 bytes (13 header + 5 preamble + abstract symbols 2/3/1), then finish
 #[cfg_attr(kani, kani::proof)]
 #[cfg_attr(kani, kani::stub(std::fmt::format, crate::verif_common::stub_format))]
@@ -455,7 +455,7 @@ pub fn stream_finish_incomplete_strict_21() {
     finish_incomplete::<false, 21>()
 }
 
-//@ harness props=C15,C10,C05 tier=quick unwind=10 unwindset=default_read_exact:4,process_mode:7,mk_stream_bytes:42,write_piece:4,extend_with:3,CountSink.*4take:6,finish_incomplete:4 mem_gb=8 timeout=900 native=no
+//@ harness props=C15,C10,C05 tier=quick unwind=10 unwindset=default_read_exact:4,process_mode:7,mk_stream_bytes:42,write_piece:4,extend_with:3,CountSink.*4take:6,finish_incomplete:4 mem_gb=8 timeout=900 native=no opt_covers=incomplete_err
 //@ bound: Stream(allow_incomplete=true, memlimit symbolic): one write of 18 bytes (13 header + 5 preamble + abstract symbols 2/3/1), then finish
 #[cfg_attr(kani, kani::proof)]
 #[cfg_attr(kani, kani::stub(std::fmt::format, crate::verif_common::stub_format))]
@@ -467,7 +467,7 @@ pub fn stream_finish_incomplete_allow_18() {
     finish_incomplete::<true, 18>()
 }
 
-//@ harness props=C15,C10,C05 tier=thorough optional=yes unwind=10 unwindset=default_read_exact:4,process_mode:7,mk_stream_bytes:42,write_piece:4,extend_with:3,CountSink.*4take:6,finish_incomplete:4 mem_gb=8 timeout=900 native=no
+//@ harness props=C15,C10,C05 tier=thorough optional=yes unwind=10 unwindset=default_read_exact:4,process_mode:7,mk_stream_bytes:42,write_piece:4,extend_with:3,CountSink.*4take:6,finish_incomplete:4 mem_gb=8 timeout=900 native=no opt_covers=incomplete_err
 //@ bound: Stream(allow_incomplete=true, memlimit symbolic): one write of 23 bytes (13 header + 5 preamble + abstract symbols 2/3/1), then finish
 #[cfg_attr(kani, kani::proof)]
 #[cfg_attr(kani, kani::stub(std::fmt::format, crate::verif_common::stub_format))]
@@ -479,7 +479,7 @@ pub fn stream_finish_incomplete_allow_23() {
     finish_incomplete::<true, 23>()
 }
 
-//@ harness props=C15,C10,C05 tier=thorough optional=yes unwind=10 unwindset=default_read_exact:4,process_mode:7,mk_stream_bytes:42,write_piece:4,extend_with:3,CountSink.*4take:6,finish_incomplete:4 mem_gb=8 timeout=900 native=no
+//@ harness props=C15,C10,C05 tier=thorough optional=yes unwind=10 unwindset=default_read_exact:4,process_mode:7,mk_stream_bytes:42,write_piece:4,extend_with:3,CountSink.*4take:6,finish_incomplete:4 mem_gb=8 timeout=900 native=no opt_covers=incomplete_ok
 //@ bound: Stream(allow_incomplete=false, memlimit symbolic): one write of 18 bytes (13 header + 5 preamble + abstract symbols 2/3/1), then finish
 #[cfg_attr(kani, kani::proof)]
 #[cfg_attr(kani, kani::stub(std::fmt::format, crate::verif_common::stub_format))]
